@@ -614,6 +614,8 @@ def replay_blocks(rep, ad, graph, label, rule, max_edges, rng):
                 break
         if blocked:
             continue
+        if pre and rp.diff(dict(graph.obs_of[e["_fk"]], err=pre[-1]["err"]), ad.project(w)):
+            continue    # the source state was not reached: that divergence belongs to (and is reported for) an earlier edge
         ad.apply(w, e["act"])
         got = ad.project(w)
         n += 1
@@ -875,7 +877,6 @@ class _Rep:
 
 def _mutants():
     armi_ready()
-    import numpy as np
     from collections import deque
 
     from armi.reactor import assemblies, blocks, grids
